@@ -656,6 +656,31 @@ def string_fragment(report, uri_consts, shape_consts):
         except (Untranslatable, OSError, SyntaxError) as e:
             out.append("def %s_untranslatable : Unit := ()  -- %s\n" % (lname, str(e)[:100]))
             report['S.' + lname] = 'UNTRANSLATABLE: ' + str(e)[:200]
+    # dispatcher for the translator's own correspondence check (lean/StrMain.lean, harness/strcheck.py): only translated functions
+    arms = []
+    for rel, cls, pyname, lname, types, ret in jobs:
+        if str(report.get('S.' + lname, 'UNTRANSLATABLE')).startswith('UNTRANSLATABLE'):
+            continue
+        header = next((l for l in out if l.startswith("def S.%s " % lname) or l.startswith("def %s " % lname)), "")
+        nstr = sum(1 for t in types.values() if t == 'str')
+        pat = "[" + ", ".join("s%d" % i for i in range(nstr)) + "]"
+        args, i = [], 0
+        for t in types.values():
+            if t == 'str':
+                args.append("s%d" % i)
+                i += 1
+            elif t == 'bool':
+                args.append("flag")
+            elif t == 'optstr':
+                args.append("opt")
+        call = "%s %s%s" % (lname, "resolve " if "(resolve :" in header else "", " ".join(args))
+        arms.append('  | "%s", %s => some (%s)' % (lname, pat, call))
+    out.append("/-- dispatch by name for `strdriver` (the translator's correspondence check) -/")
+    out.append("def dispatch (resolve : List Char → List Char → List Char) (name : String) (strs : List (List Char)) (flag : Bool)")
+    out.append("    (opt : Option (List Char)) : Option (Except PyExc (List Char)) :=")
+    out.append("  match name, strs with")
+    out += arms
+    out.append("  | _, _ => none\n")
     out.append("end GenS\nend Shexer\n")
     text = "\n".join(out).replace("def S.", "def ")
     report['S.assumptions'] = "; ".join(sorted(assumptions)) or "none"
